@@ -15,7 +15,13 @@
                                    same block object – tables, items, times, counts, statistics – and yields the same records; the
                                    new index `offset + old index` addresses, in the concatenated preamble, the set with the block's
                                    tick rate (`remap_rate`); an absent index is set 0 (`absent_index_is_zero`).
-  cdns-itemcount is decided on the implementation against the independent Lean parse.
+  cdns-itemcount (`get_qr_count` / `get_aec_count` / `get_mm_count` of every block read, and their sums):
+  * `itemcount_block_true`         for every block the reader accepts, the query/response and malformed-message counts ARE the lengths
+                                   of those arrays in the file, and the address-event count is the number of DISTINCT entries of that
+                                   array (the reader keeps them in a map keyed by the whole entry) – the array length itself when no
+                                   entry occurs twice (`itemcount_block_true_distinct`), which is what every aggregating writer produces;
+  * `itemcount_total_is_sum`       the totals are the sums of the per-block counts.
+  The printed numbers are compared on the implementation with the independent Lean parse of the same file.
 -/
 import CdnsVerif.Model.Merge
 import CdnsVerif.Proofs.ReadBlock
@@ -224,5 +230,109 @@ def demoFs : Fs := fun n =>
 
 example : (merge demoFs ["a", "b", "zz", "c"]).params = [10, 11, 30] ∧
     (merge demoFs ["a", "b", "zz", "c"]).blocks = [⟨1, 100, "a"⟩, ⟨2, 300, "c"⟩] := by decide
+
+/-! ### cdns-itemcount -/
+
+section ItemCount
+open CdnsVerif.Model.ReadBlock CdnsVerif.Model.Schema CdnsVerif.Model.Builder CdnsVerif.Generated
+
+/-- what the tool adds up and prints for one block: `get_qr_count()`, `get_aec_count()`, `get_mm_count()` -/
+def blockCounts (rb : RdBlk) : Nat × Nat × Nat := (rb.blk.qrs.length, rb.blk.aecs.length, rb.blk.mms.length)
+
+/-- the totals it prints without `-b` -/
+def totalCounts (bs : List RdBlk) : Nat × Nat × Nat :=
+  bs.foldl (fun t rb => (t.1 + (blockCounts rb).1, t.2.1 + (blockCounts rb).2.1, t.2.2 + (blockCounts rb).2.2)) (0, 0, 0)
+
+theorem allOk_length {α : Type} : ∀ (l : List (Except RErr α)) (xs : List α), allOk l = .ok xs → xs.length = l.length
+  | [], xs, h => by simp [allOk] at h; subst h; rfl
+  | .error e :: rest, xs, h => by simp [allOk] at h
+  | .ok x :: rest, xs, h => by
+    simp only [allOk] at h
+    cases hr : allOk rest with
+    | error e => rw [hr] at h; cases h
+    | ok ys =>
+      rw [hr] at h
+      cases h
+      simp [allOk_length rest ys hr]
+
+/-- entering entries that are pairwise different (and different from what the map holds) appends them all -/
+theorem putAec_distinct : ∀ (l acc : List (AEC × Nat)), (∀ e ∈ l, acc.any (· == e) = false) → l.Pairwise (fun a b => (a == b) = false) →
+    l.foldl putAec acc = acc ++ l
+  | [], acc, _, _ => by simp
+  | e :: rest, acc, hacc, hp => by
+    have he : acc.any (· == e) = false := hacc e (by simp)
+    simp only [List.foldl_cons, putAec, he, Bool.false_eq_true, if_false]
+    rw [List.pairwise_cons] at hp
+    rw [putAec_distinct rest (acc ++ [e]) ?_ hp.2]
+    · simp
+    · intro x hx
+      rw [List.any_append, hacc x (by simp [hx]), Bool.false_or]
+      simp only [List.any_cons, List.any_nil, Bool.or_false]
+      exact hp.1 x hx
+
+/-- the number of entries never exceeds the array's length (equal entries are entered once) -/
+theorem putAec_le : ∀ (l acc : List (AEC × Nat)), (l.foldl putAec acc).length ≤ acc.length + l.length
+  | [], acc => by simp
+  | e :: rest, acc => by
+    simp only [List.foldl_cons, List.length_cons]
+    have := putAec_le rest (putAec acc e)
+    have h2 : (putAec acc e).length ≤ acc.length + 1 := by
+      unfold putAec; split <;> simp
+    omega
+
+/-- **The per-block counts are true.**  For every block value the reader accepts (`ofVal`, i.e. `CdnsBlockRead::read` after the raw
+    read of ANY well-formed encoding): the query/response and malformed-message counts are the lengths of those arrays in the file;
+    the address-event count is the number of entries the reader's map holds – the array's entries with repetitions of an identical
+    entry entered once – and never more than the array's length. -/
+theorem itemcount_block_true (rates : List Nat) (v : Val) (rb : RdBlk) (h : ofVal rates v = .ok rb) :
+    (blockCounts rb).1 = (fList (recOf v) BlockMapIndex.query_responses).length ∧
+    (blockCounts rb).2.2 = (fList (recOf v) BlockMapIndex.malformed_messages).length ∧
+    (blockCounts rb).2.1 = (((fList (recOf v) BlockMapIndex.address_event_counts).map aecOf).foldl putAec []).length ∧
+    (blockCounts rb).2.1 ≤ (fList (recOf v) BlockMapIndex.address_event_counts).length := by
+  unfold ofVal at h
+  simp only at h
+  split at h
+  · cases h
+  · split at h
+    · cases h
+    · split at h
+      · cases h
+      · split at h
+        · cases h
+        · rename_i qrs hq
+          split at h
+          · cases h
+          · rename_i mms hm
+            cases h
+            refine ⟨?_, ?_, rfl, ?_⟩
+            · have := allOk_length _ _ hq; simpa [blockCounts] using this
+            · have := allOk_length _ _ hm; simpa [blockCounts] using this
+            · have := putAec_le ((fList (recOf v) BlockMapIndex.address_event_counts).map aecOf) []
+              simpa [blockCounts] using this
+
+/-- …and when no address-event entry occurs twice in the block (every aggregating writer, the library's included) the
+    address-event count is the length of the array. -/
+theorem itemcount_block_true_distinct (rates : List Nat) (v : Val) (rb : RdBlk) (h : ofVal rates v = .ok rb)
+    (hd : ((fList (recOf v) BlockMapIndex.address_event_counts).map aecOf).Pairwise (fun a b => (a == b) = false)) :
+    (blockCounts rb).2.1 = (fList (recOf v) BlockMapIndex.address_event_counts).length := by
+  rw [(itemcount_block_true rates v rb h).2.2.1, putAec_distinct _ [] (by simp) hd]
+  simp
+
+theorem totalCounts_acc (bs : List RdBlk) (t : Nat × Nat × Nat) :
+    bs.foldl (fun t rb => (t.1 + (blockCounts rb).1, t.2.1 + (blockCounts rb).2.1, t.2.2 + (blockCounts rb).2.2)) t =
+    (t.1 + ((bs.map fun rb => (blockCounts rb).1).sum), t.2.1 + ((bs.map fun rb => (blockCounts rb).2.1).sum),
+     t.2.2 + ((bs.map fun rb => (blockCounts rb).2.2).sum)) := by
+  induction bs generalizing t with
+  | nil => simp
+  | cons b rest ih => simp only [List.foldl_cons, ih, List.map_cons, List.sum_cons]; simp [Nat.add_assoc]
+
+/-- the totals are the sums of the per-block counts, over all blocks read -/
+theorem itemcount_total_is_sum (bs : List RdBlk) :
+    totalCounts bs = ((bs.map fun rb => (blockCounts rb).1).sum, (bs.map fun rb => (blockCounts rb).2.1).sum,
+                      (bs.map fun rb => (blockCounts rb).2.2).sum) := by
+  unfold totalCounts
+  rw [totalCounts_acc]; simp
+
+end ItemCount
 
 end CdnsVerif.Props.C18
